@@ -41,6 +41,8 @@ def hist_to_scenario(hist, sid):
         e = ev["e"]
         if e == "op":
             op = {k: v for k, v in ev.items() if k not in ("e", "ctx")}
+            if ev["ctx"] >= 1000:
+                continue            # issued by a source's Drop (ondrop), not by the driver: the real source does it itself
             if ev["ctx"] == 0:
                 steps.append(op)
             elif cur is not None:
